@@ -93,6 +93,11 @@ def python_text(params):
         "%s.s(%s)" % (cls, args) if index < len(parts) - 1 else "%s(%s)" % (cls, args)
         for index, (cls, args) in enumerate(parts))
     text = "from verif_daemon_plugins import *\n"
+    if params.get("py_style") == "dataclass":
+        # a configuration module that relies on being importable under its own name
+        text = ("from __future__ import annotations\nimport dataclasses\n" + text
+                + "\n\n@dataclasses.dataclass\nclass Settings:\n    interval: float = 0.4\n"
+                "    label: str = 'cfg'\n\n\nsettings = Settings()\n")
     if params.get("error") == "python-raises":
         text += "raise LookupError('configuration module fails')\n"
     return text + "pipeline = %s\n" % chain
@@ -299,6 +304,10 @@ def scenario_params(tier):
             continue
         out.append({"format": "py", "shape": shape, "flavour": flavour, "forms": ("tag",),
                     "end": "sigint", "sigint_cost": 1 if tier == "quick" else 0})
+        if shape == ("svc", "pool"):
+            out.append({"format": "py", "py_style": "dataclass", "shape": shape,
+                        "flavour": flavour, "forms": ("tag",), "end": "sigint",
+                        "sigint_cost": 1 if tier == "quick" else 0})
     # failing services
     for fmt, flavour, how, shape in itertools.product(
             ["yaml", "py"], list(SERVICE_CLASS), ["raise", "return"],
@@ -419,6 +428,8 @@ def process_params(tier):
     out = [dict(base, flavour=flavour, end="sigint") for flavour in SERVICE_CLASS]
     out.append({"format": "py", "shape": ("svc", "pool"), "flavour": "trio", "forms": ("tag",),
                 "end": "sigint"})
+    out.append({"format": "py", "py_style": "dataclass", "shape": ("svc", "pool"),
+                "flavour": "asyncio", "forms": ("tag",), "end": "sigint"})
     out += [dict(base, flavour=flavour, end="fail", fail=(0, "raise"))
             for flavour in (["asyncio"] if tier == "quick" else SERVICE_CLASS)]
     out.append(dict(base, flavour="threading", end="fail", fail=(0, "return")))
